@@ -28,6 +28,8 @@ type world struct {
 	typeIDs   map[string]int // named (struct) type -> id (for tyof)
 	typeNames []string
 	fieldIDs  map[string]int // "pkg.Struct.field" -> fid
+	fieldByID map[int]fieldInfo
+	fidsSorted []int
 	impls     map[string][]*types.Named // interface full name -> implementing pointer-receiver named types (module)
 	modsets   map[*ssa.Function]map[string]bool
 	modAll    map[*ssa.Function]bool
@@ -62,7 +64,7 @@ func mangle(s string) string {
 
 func loadWorld(repo string, patterns []string, tags string) (*world, error) {
 	w := &world{repo: repo, pkgs: map[string]*ssa.Package{}, funcs: map[string]*ssa.Function{},
-		typeIDs: map[string]int{}, fieldIDs: map[string]int{}, impls: map[string][]*types.Named{}}
+		typeIDs: map[string]int{}, fieldIDs: map[string]int{}, impls: map[string][]*types.Named{}, fieldByID: map[int]fieldInfo{}}
 	w.fset = token.NewFileSet()
 	cfg := &packages.Config{
 		Mode: packages.NeedName | packages.NeedFiles | packages.NeedCompiledGoFiles | packages.NeedImports | packages.NeedDeps |
@@ -180,6 +182,13 @@ func (w *world) indexTypes() {
 	for i, n := range fnames {
 		w.fieldIDs[n] = i + 1
 	}
+	for full, named := range structs {
+		st := named.Underlying().(*types.Struct)
+		for i := 0; i < st.NumFields(); i++ {
+			id := w.fieldIDs[full+"."+st.Field(i).Name()]
+			w.fieldByID[id] = fieldInfo{key: "F_" + mangle(full[strings.LastIndex(full, "/")+1:]) + "_" + mangle(st.Field(i).Name()), typ: st.Field(i).Type()}
+		}
+	}
 	// implementations
 	for _, in := range ifaces {
 		it := in.Underlying().(*types.Interface)
@@ -207,7 +216,25 @@ func (w *world) fieldID(st types.Type, idx int) int {
 	}
 	id := 100000 + len(w.fieldIDs)
 	w.fieldIDs[key] = id
+	f := st.Underlying().(*types.Struct).Field(idx)
+	w.fieldByID[id] = fieldInfo{key: "F_" + mangle(w.structKey(st)) + "_" + mangle(f.Name()), typ: f.Type()}
+	w.fidsSorted = nil
 	return id
+}
+
+type fieldInfo struct {
+	key string
+	typ types.Type
+}
+
+func (w *world) fieldIDsSorted() []int {
+	if w.fidsSorted == nil {
+		for id := range w.fieldByID {
+			w.fidsSorted = append(w.fidsSorted, id)
+		}
+		sort.Ints(w.fidsSorted)
+	}
+	return w.fidsSorted
 }
 
 func (w *world) structKey(t types.Type) string {
